@@ -289,6 +289,7 @@ def build_pools(ctx):
         ("d2full", pick(docs.dn(2, docs.PREFIX, docs.BODY), 1200), ()),
         ("d3", pick(docs.dn(3, docs.PREFIX3, docs.BODY3), 800), ()),
         ("families", pick(docs.families(), 200), ()),
+        ("edges", pick(docs.link_edges() + docs.leaf_edges(), 400), ()),
         ("inline-emph", pick(docs.inline_emph(), 1500), ()),
         ("inline-links", pick(docs.inline_links(), 800), ()),
         ("ext-corpus", list(EXT_CORPUS), EXTS),
